@@ -360,3 +360,176 @@ Proof.
   split; [exact cr0_total|]. split; [intros c; reflexivity|].
   eexists. vm_compute. reflexivity.
 Qed.
+
+(* ================================================================================================== *)
+(* Additions after the audit: "ends with an error" on the Signer model, signer.Verify, the provider's
+   handler machine, and the restatement over Handshake / Framing / Topology of what C06 needs.          *)
+(* ================================================================================================== *)
+From MevVerif Require model.PreconfProvider model.ProviderSvc model.Rules model.Handshake model.Framing model.Topology.
+From MevVerif Require proofs.ProviderSvc_proofs proofs.Rules_proofs proofs.PreconfProvider_proofs
+  proofs.PreconfProvider_traces proofs.Handshake_proofs proofs.Framing_proofs proofs.Topology_proofs.
+
+(* ---- hostile values are REFUSED (an error, not a success) ------------------------------------------- *)
+Theorem signature_length_refused K cr b s :
+  b_sig b = Some s -> length s <> 65%nat -> exists e, verify_bid K cr b = Err e.
+Proof.
+  intros Hs L. unfold verify_bid, verify_bid_with. rewrite Hs.
+  destruct (b_dig b) as [d|]; [|eexists; reflexivity].
+  destruct (bid_hash K b) as [h|e|] eqn:H; [|eexists; reflexivity|exfalso; exact (bid_hash_no_panic K b H)].
+  unfold eip_verify. destruct (negb (bytes_eqb h d)); [eexists; reflexivity|].
+  apply Nat.eqb_neq in L. rewrite L. cbn [negb]. eexists; reflexivity.
+Qed.
+
+Theorem missing_bid_refused K cr c : c_bid c = None -> verify_preconf K cr c = Err E_MISSING.
+Proof. intros H. unfold verify_preconf. rewrite H. reflexivity. Qed.
+
+Theorem missing_member_refused K cr b : b_dig b = None \/ b_sig b = None -> verify_bid K cr b = Err E_MISSING.
+Proof.
+  intros [H|H]; unfold verify_bid, verify_bid_with; rewrite H; [reflexivity|].
+  destruct (b_dig b); reflexivity.
+Qed.
+
+Theorem bad_amount_refused K cr b d s :
+  b_dig b = Some d -> b_sig b = Some s -> parse_amount (b_amt b) = None -> verify_bid K cr b = Err E_AMOUNT.
+Proof.
+  intros Hd Hs Ha. unfold verify_bid, verify_bid_with. rewrite Hd, Hs. unfold bid_hash. rewrite Ha. reflexivity.
+Qed.
+
+Theorem wrong_digest_refused K cr b d s h :
+  b_dig b = Some d -> b_sig b = Some s -> bid_hash K b = Ok h -> bytes_eqb h d = false ->
+  verify_bid K cr b = Err E_HASH.
+Proof.
+  intros Hd Hs Hh Ne. unfold verify_bid, verify_bid_with. rewrite Hd, Hs, Hh. unfold eip_verify. rewrite Ne. reflexivity.
+Qed.
+
+(* ---- signer.Verify (model/NoPanic.v: signer_verify) ----------------------------------------------------- *)
+(* crypto.SigToPub refuses every signature that is not 65 bytes long *)
+Definition recover_len (cr : crypto) : Prop :=
+  forall h s, length s <> 65%nat -> exists e, recover cr h s = Err e.
+
+Theorem signer_verify_no_panic K cr sig msg :
+  recover_total cr -> recover_len cr -> signer_verify K cr sig msg <> Panic.
+Proof.
+  intros NP RL. unfold signer_verify. pose proof (NP (K msg) sig) as R.
+  destruct (recover cr (K msg) sig) as [pub|e|] eqn:E; [|discriminate|contradiction].
+  destruct sig as [|x r]; [|discriminate].
+  destruct (RL (K msg) [] ltac:(cbn; discriminate)) as [e E']. congruence.
+Qed.
+
+(* without the library's length test the slice expression is reachable: the premise is needed *)
+Example signer_verify_needs_recover_len :
+  exists cr, recover_total cr /\ signer_verify k0 cr [] [] = Panic.
+Proof.
+  exists {| recover := fun _ _ => Ok []; verify_rs := fun _ _ _ => false; addr_of := fun p => p; sign := fun _ => Err 0 |}.
+  split; [intros h s; discriminate|reflexivity].
+Qed.
+Example cr0_recover_len : recover_len cr0.
+Proof. intros h s _. exists 0. reflexivity. Qed.
+
+(* ---- handleBid: the handler machine of model/PreconfProvider.v never ends in RPanic ------------------------ *)
+Lemma provider_parse_is_parse_amount s : PreconfProvider.parse_bigint s = parse_amount s.
+Proof.
+  destruct s as [|c r]; [reflexivity|].
+  unfold PreconfProvider.parse_bigint, parse_amount.
+  destruct (N.eqb_spec c 43) as [->|N1]; [reflexivity|].
+  destruct (N.eqb_spec c 45) as [->|N2]; [reflexivity|].
+  destruct c as [|p]; [reflexivity|].
+  do 7 (try (destruct p as [p|p|]; try reflexivity; try (exfalso; apply N1; reflexivity); try (exfalso; apply N2; reflexivity))).
+Qed.
+
+Lemma verified_amount_parses_provider K cr b a :
+  verify_bid K cr b = Ok a ->
+  exists z, PreconfProvider.parse_bigint (b_amt b) = Some z /\ amount_out_of_range z = false.
+Proof.
+  intros H. destruct (verified_amount_parses K cr b a H) as (z & P & R).
+  exists z. rewrite provider_parse_is_parse_amount. split; assumption.
+Qed.
+
+(* the handler machine never ends in RPanic: proofs/PreconfProvider_traces.v, no_rpanic_node (used by Properties/C06.v) *)
+
+(* ---- handshake.go: the result is an enrolment or one of seven refusals; nothing else ---------------------- *)
+Theorem handshake_outcomes c o wfail script :
+  let closed r := (exists A T, r = Handshake.Enrol A T) \/
+                  (exists cl, r = Handshake.Refuse cl /\
+                     In cl [Handshake.RSig; Handshake.RAddr; Handshake.RStake; Handshake.RRead;
+                            Handshake.RWrite; Handshake.RPid; Handshake.REcho]) in
+  closed (Handshake.res (Handshake.handle c o wfail script)) /\
+  closed (Handshake.res (Handshake.handshake c o wfail script)).
+Proof.
+  cbn zeta. split.
+  - destruct (Handshake.res (Handshake.handle c o wfail script)) as [A T|cl]; [left; eauto|right].
+    exists cl. split; [reflexivity|]. destruct cl; cbn; tauto.
+  - destruct (Handshake.res (Handshake.handshake c o wfail script)) as [A T|cl]; [left; eauto|right].
+    exists cl. split; [reflexivity|]. destruct cl; cbn; tauto.
+Qed.
+
+(* ---- the two layers meet: the summary the drivers compute, as a function of the Signer model --------------- *)
+Definition lenN (l : bytes) : N := N.of_nat (length l).
+Definition core_ok (cr : crypto) (h s : bytes) : bool :=
+  match eip_verify_core cr h s with Ok _ => true | _ => false end.
+(* the summary the drivers compute for a Bid value, as a function of the Signer model's own ingredients *)
+Definition summary (K : bytes -> bytes) (cr : crypto) (b : bid) : bid_in :=
+  let amt_ok := match bid_hash K b with Ok _ => true | _ => false end in
+  let hash_ok := match bid_hash K b, b_dig b with Ok h, Some d => bytes_eqb h d | _, _ => false end in
+  let sig_ok := match bid_hash K b, b_sig b with
+                | Ok h, Some s => hash_ok && Nat.eqb (length s) 65 && core_ok cr h s
+                | _, _ => false
+                end in
+  {| bi_dig := option_map lenN (b_dig b); bi_sig := option_map lenN (b_sig b);
+     bi_amt_ok := amt_ok; bi_hash_ok := hash_ok; bi_sig_ok := sig_ok |}.
+
+Definition class_of {A} (o : outcome A) : vout := match o with Ok _ => VOk | Err _ => VErr | Panic => VPanic end.
+
+Lemma lenN_65 s : (lenN s =? 65) = Nat.eqb (length s) 65.
+Proof. unfold lenN. destruct (Nat.eqb_spec (length s) 65) as [E|E].
+  - rewrite E. reflexivity.
+  - apply N.eqb_neq. lia. Qed.
+Lemma lenN_le64 s : (lenN s <=? 64) = true <-> (length s <= 64)%nat.
+Proof. unfold lenN. rewrite N.leb_le. lia. Qed.
+
+Lemma core_short cr h s : (length s <= 64)%nat -> eip_verify_core cr h s = Panic.
+Proof. intros L. unfold eip_verify_core. destruct (nth_error s 64) eqn:E; [|reflexivity].
+  assert (nth_error s 64 <> None) as H by congruence. apply nth_error_Some in H. lia. Qed.
+
+Lemma set64_length s v : (64 < length s)%nat -> length (set64 s v) = length s.
+Proof. intros L. unfold set64. rewrite app_length, firstn_length. cbn [length]. rewrite skipn_length. lia. Qed.
+
+Lemma core_long cr h s : recover_len cr -> (65 < length s)%nat -> exists e, eip_verify_core cr h s = Err e.
+Proof.
+  intros RL L. unfold eip_verify_core. destruct (nth_error s 64) as [v|] eqn:E.
+  - destruct (RL h (set64 s (v_to01 v))) as [e He]; [rewrite set64_length; lia|]. rewrite He. eexists; reflexivity.
+  - apply nth_error_None in E. lia.
+Qed.
+
+Lemma core_class cr h s : recover_total cr -> length s = 65%nat ->
+  class_of (eip_verify_core cr h s) = if core_ok cr h s then VOk else VErr.
+Proof.
+  intros NP L. unfold core_ok. pose proof (eip_verify_core_no_panic cr h s NP L) as H.
+  destruct (eip_verify_core cr h s); [reflexivity|reflexivity|contradiction].
+Qed.
+
+Theorem summary_sound K cr b f : recover_total cr -> recover_len cr ->
+  verify_bid_in f (summary K cr b) =
+  class_of (verify_bid_with (bid_hash K) (if f_siglen f then eip_verify cr else eip_verify_v0 cr) b).
+Proof.
+  intros NP RL. unfold verify_bid_in, verify_bid_with, summary. cbn [bi_dig bi_sig bi_amt_ok bi_hash_ok bi_sig_ok].
+  destruct (b_dig b) as [d|]; cbn [option_map]; [|reflexivity].
+  destruct (b_sig b) as [s|]; cbn [option_map]; [|reflexivity].
+  pose proof (bid_hash_no_panic K b) as HP.
+  destruct (bid_hash K b) as [h|e|]; [|reflexivity|contradiction]. cbn [negb].
+  unfold eip_verify_in. destruct (f_siglen f).
+  - unfold eip_verify. destruct (bytes_eqb h d); cbn [negb andb]; [|reflexivity].
+    rewrite lenN_65. destruct (Nat.eqb_spec (length s) 65) as [L|L]; cbn [negb andb]; [|reflexivity].
+    rewrite (core_class cr h s NP L). reflexivity.
+  - unfold eip_verify_v0. destruct (bytes_eqb h d); cbn [negb andb]; [|reflexivity].
+    destruct (lenN s <=? 64) eqn:L64.
+    + apply lenN_le64 in L64. rewrite (core_short cr h s L64). reflexivity.
+    + assert (64 < length s)%nat as G by (destruct (Nat.le_gt_cases (length s) 64) as [X|X]; [apply lenN_le64 in X; congruence|exact X]).
+      rewrite lenN_65. destruct (Nat.eqb_spec (length s) 65) as [L|L]; cbn [andb].
+      * rewrite (core_class cr h s NP L). reflexivity.
+      * destruct (core_long cr h s RL ltac:(lia)) as [e He]. rewrite He. reflexivity.
+Qed.
+
+Corollary summary_sound_now K cr b : recover_total cr -> recover_len cr ->
+  verify_bid_in fixes_now (summary K cr b) = class_of (verify_bid K cr b).
+Proof. intros NP RL. exact (summary_sound K cr b fixes_now NP RL). Qed.
